@@ -1,4 +1,4 @@
-//! props: C07 C03
+//! props: C07 C03 C12
 //! Static delegation target + methods whose OUTPUT borrows from `&self` by lifetime elision while
 //! another parameter is a reference too: on the generated `TraitImpl<T>` the receiver becomes the
 //! ordinary parameter `__impl`, so the elided output lifetime has to be named. Also the typed
@@ -17,6 +17,7 @@ pub trait Kv {
     fn no_borrow(&self, key: &str) -> usize;
     fn only_self(&self) -> &str;
     async fn aget(&self, key: &str) -> &str;
+    async fn afind(&self, prefix: &str, other: &u8) -> Option<&str>;
 }
 
 pub struct Store;
@@ -51,6 +52,9 @@ impl KvImpl for Store {
     }
     async fn aget<'a, D>(deps: &'a D, key: &str) -> &'a str {
         "aget"
+    }
+    async fn afind<'a, D>(deps: &'a D, prefix: &str, other: &u8) -> Option<&'a str> {
+        None
     }
 }
 
